@@ -25,7 +25,7 @@ ASSUMPTIONS = ["'accepted => runnable' is explored over the lattice above and ge
 BATCH = {"quick": 6, "thorough": 10}
 TIMEOUT = {"quick": 1500, "thorough": 7200}
 FLOORS = {"quick": {"invalid_specs": 250, "rejected_correctly": 200, "accepted_models_run": 40, "solve_runs": 40, "simulate_runs": 40},
-          "thorough": {"invalid_specs": 1500, "rejected_correctly": 1200, "accepted_models_run": 300, "solve_runs": 300, "simulate_runs": 300}}
+          "thorough": {"invalid_specs": 1000, "rejected_correctly": 900, "accepted_models_run": 300, "solve_runs": 300, "simulate_runs": 300}}
 
 INJECTIONS = [
     "n_periods_zero", "n_periods_negative", "no_utility", "state_without_transition", "name_state_and_choice",
